@@ -12,9 +12,9 @@ typedef struct { int n; int e[MAXN + 2]; } model_t;
 static sm_spec_t SP;
 static unsigned char ELB[3][128];
 
-enum { OP_ADDFIRST, OP_ADDLAST, OP_ADDAT, OP_SETAT, OP_SETFIRST, OP_SETLAST, OP_POPAT, OP_POPFIRST, OP_POPLAST, OP_REMOVEAT, OP_REMOVEFIRST, OP_REMOVELAST, OP_REVERSE, OP_RESIZE, OP_CLEAR, OP_RESIZEHUGE, OP_WALKSHRINK };
+enum { OP_ADDFIRST, OP_ADDLAST, OP_ADDAT, OP_SETAT, OP_SETFIRST, OP_SETLAST, OP_POPAT, OP_POPFIRST, OP_POPLAST, OP_REMOVEAT, OP_REMOVEFIRST, OP_REMOVELAST, OP_REVERSE, OP_RESIZE, OP_CLEAR, OP_RESIZEHUGE, OP_WALKSHRINK, OP_GETAT };
 typedef struct { int kind, i, e; const char *label; } op_t;
-static op_t OPS[400]; static int NOPS;
+static op_t OPS[500]; static int NOPS;
 static const char *op_label(int op) { return OPS[op].label; }
 static int elid(const void *d) { for (int i = 0; i < 3; i++) if (!memcmp(ELB[i], d, OSZ)) return i; return -1; }
 static long n_growths, n_resize0;
@@ -94,6 +94,14 @@ static int apply(qvector_t *v, model_t *m, const op_t *op, int check, const char
             if (ok) m->e[idx] = op->e;
             break;
         }
+        case OP_GETAT: {   /* a read as an operation (see sm_histories in seqmc.h) */
+            int i = op->i; if (i < -n - 2 || i > n + 2) return 1;
+            int idx = i < 0 ? n + i : i; void *d = v->getat(v, i, false);
+            if (check) { if (idx < 0 || idx >= n) { if (d) vc_viol("array:get-out-of-range", "%s: getat(%d) on %d elements returned data", after, i, n); }
+                         else if (!d) vc_viol("array:get-missing", "%s: getat(%d) on %d elements returned NULL", after, i, n);
+                         else if (memcmp(d, ELB[m->e[idx]], OSZ)) vc_viol("array:get-value", "%s: getat(%d) returned the wrong element (expected value %d)", after, i, m->e[idx]); }
+            break;
+        }
         case OP_POPAT: case OP_POPFIRST: case OP_POPLAST: {
             int i = op->kind == OP_POPFIRST ? 0 : op->kind == OP_POPLAST ? -1 : op->i;
             if (op->kind == OP_POPAT && (i < -n - 2 || i > n + 2)) return 1;
@@ -161,8 +169,10 @@ static int transition(const uint16_t *hist, int d, int opi, char *ckey, int verb
     for (int i = 0; i < d; i++) { snprintf(after, sizeof after, "step %d (op %d)", i, hist[i]); apply(v, &m, &OPS[hist[i]], verbose, after); if (verbose) observe(v, &m, after); }
     vc_asan_check();   /* reports raised by the history prefix belong to the transitions that ended in those ops */
     snprintf(after, sizeof after, "op %d", opi);
+    if (!sm_hist_mode) {
     for (int i = 0; i < m.n; i++) { void *d = v->getat(v, i, true); if (d) sm_hold(d, ELB[m.e[i]], OSZ, "qvector_getat(newmem) taken before the operation"); }
     if (m.n) { size_t cnt = 0; void *a = v->toarray(v, &cnt); if (a) sm_hold(a, a, cnt * OSZ, "qvector_toarray taken before the operation"); }
+    }
     if (apply(v, &m, &OPS[opi], 1, after) == 1) { sm_release_held(); v->free(v); return 1; }
     canon(v, ckey);
     char want[80], *p = want; for (int i = 0; i < m.n; i++) *p++ = '0' + m.e[i]; *p = 0;
@@ -201,14 +211,20 @@ static void setup(void) {
     for (int mx = 0; mx <= N + 2; mx++) OPS[NOPS++] = (op_t){OP_RESIZE, mx, 0, "qvector_resize"};
     OPS[NOPS++] = (op_t){OP_CLEAR, 0, 0, "qvector_clear"};
     for (int h = 0; h < 3; h++) OPS[NOPS++] = (op_t){OP_RESIZEHUGE, h, 0, "qvector_resize"};
+    for (int i = -N - 2; i <= N + 2; i++) OPS[NOPS++] = (op_t){OP_GETAT, i, 0, "qvector_getat"};
     for (int j = 1; j <= 3 && j <= N; j++) for (int k = 1; k <= 4; k++) OPS[NOPS++] = (op_t){OP_WALKSHRINK, j, k == 4 ? 9 : k, "qvector_getnext"};
     snprintf(SP.prefix, sizeof SP.prefix, "vector:%d:%d:%d:%d:", CAP0, OSZ, POLICY, N);
     SP.nops = NOPS; SP.label = op_label; SP.transition = transition; SP.initial = initial;
 }
 static int worker(int argc, char **argv) {
-    if (vc_replay_key) { int off; if (sscanf(vc_replay_key, "vector:%d:%d:%d:%d:%n", &CAP0, &OSZ, &POLICY, &N, &off) < 4) return 1; setup(); vc_case("replay", vc_replay_key); return sm_replay(&SP, vc_replay_key + off); }
+    if (vc_replay_key) { int off; if (sscanf(vc_replay_key, "vector:%d:%d:%d:%d:%n", &CAP0, &OSZ, &POLICY, &N, &off) < 4) return 1; setup(); if (argc >= 6 && !strcmp(argv[5], "hist")) sm_hist_mode = 1; vc_case("replay", vc_replay_key); return sm_replay(&SP, vc_replay_key + off); }
     if (argc < 5) return 1;
     CAP0 = atoi(argv[1]); OSZ = atoi(argv[2]); POLICY = atoi(argv[3]); N = atoi(argv[4]); setup();
+    if (argc >= 10 && !strcmp(argv[5], "hist")) {   /* vector <cap> <osz> <pol> <N> hist <n> <depth> <shard> <nshards>: unmerged histories from a vector of n elements */
+        int n = atoi(argv[6]); uint16_t seed[16];
+        for (int i = 0; i < n && i < 16; i++) { int want = (i + 1) % 3; for (int o = 0; o < NOPS; o++) if (OPS[o].kind == OP_ADDLAST && OPS[o].e == want) seed[i] = (uint16_t)o; }
+        return sm_histories(&SP, seed, n, atoi(argv[7]), atol(argv[8]), atol(argv[9]));
+    }
     sm_search(&SP, 0);
     vc_stat_add("capacity_growths", n_growths); vc_stat_add("resize_to_zero", n_resize0);
     return 0;
